@@ -4,6 +4,7 @@ package c08
 
 import (
 	"fmt"
+	"math"
 	"testing"
 
 	"github.com/openacid/low/bitword"
@@ -13,6 +14,39 @@ import (
 	"verif/harness/model"
 	"verif/harness/vk"
 )
+
+// coldStartResult: the very first bitword calls of the process are Get and FirstDiff (no FromStr
+// has run yet), for every width.
+var coldStartResult = func() (msg string) {
+	defer func() {
+		if r := recover(); r != nil {
+			msg = fmt.Sprintf("first use in the process panicked: %v", r)
+		}
+	}()
+	a, b := "\x80\xffa\x01", "\x80\xffb\x01"
+	for _, n := range widths {
+		bw := bitword.BitWord[n]
+		for i := 0; i < nwords(a, n); i++ {
+			if g := bw.Get(a, i); g != wordOf(a, n, i) {
+				return fmt.Sprintf("first use in the process: BitWord[%d].Get(%x, %d) = %d, want %d", n, a, i, g, wordOf(a, n, i))
+			}
+		}
+		if g, w := bw.FirstDiff(a, b, 0, -1), wantFirstDiff(a, b, n, 0, -1); g != w {
+			return fmt.Sprintf("first use in the process: BitWord[%d].FirstDiff(%x, %x, 0, -1) = %d, want %d", n, a, b, g, w)
+		}
+	}
+	return ""
+}()
+
+func TestColdStart(t *testing.T) {
+	vk.SetPhase("coldstart")
+	vk.Label("cold-start-probe", 1)
+	if coldStartResult != "" {
+		checker.Run(t, Case{Op: "cold-start", N: 1, Class: coldStartResult})
+	}
+}
+
+var scratch vk.Scratch
 
 func TestMain(m *testing.M) { vk.Main(m, "C08") }
 
@@ -112,16 +146,33 @@ func check(c Case) *vk.Failure {
 		return vk.Failf("missing-width", "bitword.BitWord[%d] is missing", c.N)
 	}
 	switch c.Op {
+	case "cold-start":
+		if coldStartResult != "" {
+			return vk.Failf("cold-start", "%s", coldStartResult)
+		}
+		return nil
 	case "str":
 		return checkStr(bw, c.N, string(c.S))
 	case "tostr":
 		ws := append([]byte(nil), c.Words...)
+		reused := scratch.Reuse(vk.Hash64(c.Words) + uint64(c.N))
+		if reused {
+			ws = scratch.Bytes(c.Words) // a reused buffer with guarded spare capacity (e.g. a prefix of a longer word slice)
+		}
 		var got string
 		if f := vk.Try(fmt.Sprintf("BitWord[%d].ToStr(%v)", c.N, c.Words), func() { got = bw.ToStr(ws) }); f != nil {
 			return f
 		}
 		if want := packWords(c.Words, c.N); got != want {
 			return vk.Failf("tostr", "BitWord[%d].ToStr(%v) = %x, want %x", c.N, []byte(c.Words), got, want)
+		}
+		if string(ws) != string(c.Words) {
+			return vk.Failf("tostr-mutates", "ToStr modified its argument")
+		}
+		if reused {
+			if msg := scratch.Check(); msg != "" {
+				return vk.Failf("argument-spare-capacity-written", "BitWord[%d].ToStr(%d words): %s", c.N, len(c.Words), msg)
+			}
 		}
 		return nil
 	case "firstdiff":
@@ -190,6 +241,9 @@ func check(c Case) *vk.Failure {
 }
 
 func classify(c Case) (bool, []string) {
+	if c.Op == "cold-start" {
+		return false, []string{"cold-start-failure"}
+	}
 	labels := []string{"op:" + c.Op, fmt.Sprintf("n:%d", c.N)}
 	if c.Class != "" {
 		labels = append(labels, "class:"+c.Class)
@@ -309,6 +363,13 @@ func genCase(t *rapid.T) Case {
 	if gen.Chance(t, 1, 4, "endm1") {
 		end = -1
 	}
+	if gen.Chance(t, 1, 12, "extreme") { // the largest values the argument types allow
+		ext := []int{math.MaxInt, math.MaxInt - 1, math.MaxInt - 3, math.MaxInt - 7, math.MaxInt32, math.MaxInt32 + 1, 1 << 62}
+		end = ext[gen.Uniform(t, len(ext), "extend")]
+		if gen.Chance(t, 1, 3, "extfrom") {
+			from = ext[gen.Uniform(t, len(ext), "extfrom2")]
+		}
+	}
 	// steer some windows to the interesting place
 	if gen.Chance(t, 1, 3, "steer") {
 		d := wantFirstDiff(string(a), string(b), n, 0, -1)
@@ -362,6 +423,15 @@ func TestGrid(t *testing.T) {
 							nontriv++
 						}
 					}
+				}
+			}
+		}
+	}
+	for _, n := range widths { // the largest values the argument types allow, on a few pairs
+		for _, pair := range [][2]string{{"aa", "ab"}, {"", "x"}, {"\xff\x00", "\xff\x00"}, {"abc", "ab"}} {
+			for _, end := range []int{math.MaxInt, math.MaxInt - 1, math.MaxInt - 3, math.MaxInt - 7, math.MaxInt32, 1 << 40} {
+				for _, from := range []int{0, 1, 9, math.MaxInt, math.MaxInt - 8} {
+					checker.Run(t, Case{Op: "firstdiff", N: n, A: vk.Hex(pair[0]), B: vk.Hex(pair[1]), From: from, End: end, Class: "grid-extreme"})
 				}
 			}
 		}
